@@ -19,16 +19,25 @@ Inductive mech :=
 | MMx (d : option bytes) (c4 c6 : N)
 | MPtr (d : option bytes)
 | MIp4 (net len : N)
-| MIp6 (net len : N)
+| MIp6 (net len : N) (short : bool)
 | MExists (d : bytes).
 Inductive term := TDir (q : qual) (m : mech) | TRedirect (d : bytes) | TExp (d : bytes) | TUnknown.
 
 (* ------------------------------------------------------------------ the grammar *)
-Fixpoint split_sp (s : bytes) (cur : bytes) : list bytes :=
+(** [strict] (a switch of the evaluator below): answer RSkip where the known deviations of qsmtpd/spf.c are met
+    (F-C11-2, -10, -11, -12, -13): with [strict = true] the evaluator below
+    is the class for which agreement with Model/Spf.v is PROVED (Proofs/SpfAgree.v); with
+    [strict = false] it is plain RFC 7208. *)
+
+Definition not_sp (c : N) : bool := negb (c =? 32).
+(** the terms of a record: maximal runs of characters other than SP.
+    [intok]: the scan is inside a term whose start was already seen *)
+Fixpoint tokens (s : bytes) (intok : bool) : list bytes :=
   match s with
-  | [] => match cur with [] => [] | _ => [rev cur] end
-  | c :: t => if c =? 32 then (match cur with [] => split_sp t [] | _ => rev cur :: split_sp t [] end)
-              else split_sp t (c :: cur)
+  | [] => []
+  | c :: t => if c =? 32 then tokens t false
+              else if intok then tokens t true
+              else take_while not_sp s :: tokens t true
   end.
 
 Definition lower (s : bytes) : bytes := map to_lower s.
@@ -39,16 +48,12 @@ Definition toplabel (l : bytes) : bool :=
   Nat.leb 2 (length l) && is_alnum (hd0 l)
   && match last_opt l with Some c => is_alnum c | None => false end
   && forallb (fun c => is_alnum c || (c =? 45)) l && existsb is_alpha l.
-Fixpoint last_label (s : bytes) (cur : bytes) (seen_dot : bool) : option bytes :=
-  match s with
-  | [] => if seen_dot then Some (rev cur) else None
-  | c :: t => if c =? 46 then last_label t [] true else last_label t (c :: cur) seen_dot
-  end.
-(** domain-spec without macros, no '/', no trailing dot, at most 253 octets *)
+(** what follows the last dot *)
+Definition last_label (s : bytes) : bytes := rev (take_while (fun c => negb (c =? 46)) (rev s)).
+Definition ds_char (c : N) : bool := (33 <=? c) && (c <=? 126) && negb (c =? 37) && negb (c =? 47).
+(** domain-spec without macros, no '/', no trailing dot, at most 253 octets, ending in "." toplabel *)
 Definition domain_spec (s : bytes) : bool :=
-  forallb (fun c => (33 <=? c) && (c <=? 126) && negb (c =? 37) && negb (c =? 47)) s
-  && Nat.leb (length s) 253
-  && match last_label s [] false with Some l => toplabel l | None => false end.
+  forallb ds_char s && Nat.leb (length s) 253 && negb (ends_with_dot s) && mem 46 s && toplabel (last_label s).
 
 (** "0" / %x31-39 0*nDIGIT below or equal [max] *)
 Definition cidr_num (s : bytes) (max : N) : option N :=
@@ -88,84 +93,106 @@ Definition not_slash (c : N) : bool := negb (c =? 47).
 
 (** [ ":" domain-spec ] [ dual-cidr-length ] *)
 Definition opt_domain_cidr (s : bytes) : option (option bytes * N * N) :=
-  let '(d, rest) :=
-      match s with
-      | c :: t => if c =? 58 then (Some (take_while not_slash t), drop_while not_slash t) else (None, s)
-      | [] => (None, s)
-      end in
-  match d with
-  | Some n => if domain_spec n then match dual_cidr rest with Some (a, b) => Some (Some n, a, b) | None => None end else None
-  | None => match dual_cidr rest with Some (a, b) => Some (None, a, b) | None => None end
+  if hd0 s =? 58 then
+    let n := take_while not_slash (tl s) in
+    if domain_spec n
+    then match dual_cidr (drop_while not_slash (tl s)) with Some (a, b) => Some (Some n, a, b) | None => None end
+    else None
+  else match dual_cidr s with Some (a, b) => Some (None, a, b) | None => None end.
+
+Definition KW_ALL : bytes := [97; 108; 108].
+Definition KW_INCLUDE : bytes := [105; 110; 99; 108; 117; 100; 101; 58].
+Definition KW_EXISTS : bytes := [101; 120; 105; 115; 116; 115; 58].
+Definition KW_IP4 : bytes := [105; 112; 52; 58].
+Definition KW_IP6 : bytes := [105; 112; 54; 58].
+Definition KW_PTR : bytes := [112; 116; 114].
+Definition KW_MX : bytes := [109; 120].
+Definition KW_A : bytes := [97].
+
+(** "ip4:" / "ip6:" network [ "/" length ].  The text of an IPv4 network has 7..15 characters
+    (digits and dots), that of an IPv6 network at most 45 (hex digits, colons, dots): implied by
+    inet_pton() accepting it, stated to have it at hand.  An IPv6 text shorter than 3 characters
+    ("::") is marked: qsmtpd/spf.c rejects it (F-C11-13). *)
+Definition parse_ip4 (arg : bytes) : option mech :=
+  let a := take_while not_slash arg in
+  let r := drop_while not_slash arg in
+  if negb (forallb ip4_char a && Nat.leb 7 (length a) && Nat.leb (length a) 15) then None else
+  match inet_pton4 a with
+  | None => None
+  | Some o =>
+      match r with
+      | [] => Some (MIp4 (octets_to_N o) 32)
+      | _ :: n => match cidr_num n 32 with
+                  | Some v => Some (MIp4 (octets_to_N o) v)
+                  | None => None
+                  end
+      end
+  end.
+Definition parse_ip6 (arg : bytes) : option mech :=
+  let a := take_while not_slash arg in
+  let r := drop_while not_slash arg in
+  if negb (forallb ip6_char a && Nat.leb (length a) 45) then None else
+  match inet_pton6 a with
+  | None => None
+  | Some o =>
+      match r with
+      | [] => Some (MIp6 (octets_to_N o) 128 (Nat.ltb (length a) 3))
+      | _ :: n => match cidr_num n 128 with
+                  | Some v => Some (MIp6 (octets_to_N o) v (Nat.ltb (length a) 3))
+                  | None => None
+                  end
+      end
   end.
 
 Definition parse_mech (s : bytes) : option mech :=
   let l := lower s in
-  if str_eq l [97; 108; 108] then Some MAll
-  else if is_prefix [105; 110; 99; 108; 117; 100; 101; 58] l then                       (* include: *)
+  if str_eq l KW_ALL then Some MAll
+  else if is_prefix KW_INCLUDE l then
     let d := skipn 8 s in if domain_spec d then Some (MInclude d) else None
-  else if is_prefix [101; 120; 105; 115; 116; 115; 58] l then                            (* exists: *)
+  else if is_prefix KW_EXISTS l then
     let d := skipn 7 s in if domain_spec d then Some (MExists d) else None
-  else if is_prefix [105; 112; 52; 58] l then                                            (* ip4: *)
-    let a := take_while not_slash (skipn 4 s) in
-    let r := drop_while not_slash (skipn 4 s) in
-    match inet_pton4 a with
-    | None => None
-    | Some o =>
-        match r with
-        | [] => Some (MIp4 (octets_to_N o) 32)
-        | _ :: n => match cidr_num n 32 with Some v => Some (MIp4 (octets_to_N o) v) | None => None end
-        end
-    end
-  else if is_prefix [105; 112; 54; 58] l then                                            (* ip6: *)
-    let a := take_while not_slash (skipn 4 s) in
-    let r := drop_while not_slash (skipn 4 s) in
-    match inet_pton6 a with
-    | None => None
-    | Some o =>
-        match r with
-        | [] => Some (MIp6 (octets_to_N o) 128)
-        | _ :: n => match cidr_num n 128 with Some v => Some (MIp6 (octets_to_N o) v) | None => None end
-        end
-    end
-  else if is_prefix [112; 116; 114] l then                                               (* ptr *)
+  else if is_prefix KW_IP4 l then parse_ip4 (skipn 4 s)
+  else if is_prefix KW_IP6 l then parse_ip6 (skipn 4 s)
+  else if is_prefix KW_PTR l then
     match skipn 3 s with
     | [] => Some (MPtr None)
     | c :: d => if (c =? 58) && domain_spec d then Some (MPtr (Some d)) else None
     end
-  else if is_prefix [109; 120] l then                                                    (* mx *)
+  else if is_prefix KW_MX l then
     match opt_domain_cidr (skipn 2 s) with Some (d, a, b) => Some (MMx d a b) | None => None end
-  else if is_prefix [97] l then                                                          (* a *)
+  else if is_prefix KW_A l then
     match opt_domain_cidr (skipn 1 s) with Some (d, a, b) => Some (MA d a b) | None => None end
   else None.
 
 Definition name_char (c : N) : bool := is_alpha c || is_digit c || (c =? 45) || (c =? 95) || (c =? 46).
+Definition not_eq_sign (c : N) : bool := negb (c =? 61).
+Definition mod_value_char (c : N) : bool := (33 <=? c) && (c <=? 126) && negb (c =? 37).
+Definition N_REDIRECT : bytes := [114; 101; 100; 105; 114; 101; 99; 116].
+Definition N_EXP : bytes := [101; 120; 112].
+(** name "=" value *)
 Definition parse_modifier (s : bytes) : option term :=
-  let n := take_while (fun c => negb (c =? 61)) s in
-  let r := drop_while (fun c => negb (c =? 61)) s in
-  match n, r with
-  | c :: _, _ :: v =>
-      if negb (is_alpha c && forallb name_char n) then None
-      else if str_eq (lower n) [114; 101; 100; 105; 114; 101; 99; 116] then
-        (if domain_spec v then Some (TRedirect v) else None)
-      else if str_eq (lower n) [101; 120; 112] then
-        (if domain_spec v then Some (TExp v) else None)
-      else if forallb (fun c => (33 <=? c) && (c <=? 126) && negb (c =? 37)) v then Some TUnknown else None
-  | _, _ => None
+  let n := take_while not_eq_sign s in
+  let r := drop_while not_eq_sign s in
+  match r with
+  | [] => None
+  | _ :: v =>
+      if negb (is_alpha (hd0 n) && forallb name_char n) then None
+      else if str_eq (lower n) N_REDIRECT then (if domain_spec v then Some (TRedirect v) else None)
+      else if str_eq (lower n) N_EXP then (if domain_spec v then Some (TExp v) else None)
+      else if forallb mod_value_char v then Some TUnknown else None
   end.
 
+Definition parse_qual (c : N) : option qual :=
+  if c =? 43 then Some QPlus else if c =? 45 then Some QMinus
+  else if c =? 126 then Some QTilde else if c =? 63 then Some QQuest else None.
+
 Definition parse_term (s : bytes) : option term :=
-  match s with
-  | [] => None
-  | c :: t =>
-      let q := if c =? 43 then Some QPlus else if c =? 45 then Some QMinus
-               else if c =? 126 then Some QTilde else if c =? 63 then Some QQuest else None in
-      match q with
-      | Some q' => match parse_mech t with Some m => Some (TDir q' m) | None => None end
-      | None =>
-          match parse_mech s with
-          | Some m => Some (TDir QPlus m)
-          | None => parse_modifier s
-          end
+  match parse_qual (hd0 s) with
+  | Some q => match parse_mech (tl s) with Some m => Some (TDir q m) | None => None end
+  | None =>
+      match parse_mech s with
+      | Some m => Some (TDir QPlus m)
+      | None => parse_modifier s
       end
   end.
 
@@ -178,14 +205,24 @@ Fixpoint parse_terms (l : list bytes) : option (list term) :=
               end
   end.
 
-Definition count_redirect (l : list term) : nat := length (filter (fun t => match t with TRedirect _ => true | _ => false end) l).
-Definition count_exp (l : list term) : nat := length (filter (fun t => match t with TExp _ => true | _ => false end) l).
-
+(** SP or a visible character (every term consists of visible characters; stated to have it at hand) *)
+Definition rec_char (c : N) : bool := (c =? 32) || ((33 <=? c) && (c <=? 126)).
 (** the text after "v=spf1" *)
 Definition parse_record (body : bytes) : option (list term) :=
   match body with
   | [] => Some []
-  | c :: _ => if c =? 32 then parse_terms (split_sp body []) else None
+  | c :: _ => if (c =? 32) && forallb rec_char body then parse_terms (tokens body false) else None
+  end.
+
+Definition is_redirect (t : term) : bool := match t with TRedirect _ => true | _ => false end.
+Definition is_exp (t : term) : bool := match t with TExp _ => true | _ => false end.
+Definition count_redirect (l : list term) : nat := length (filter is_redirect l).
+Definition count_exp (l : list term) : nat := length (filter is_exp l).
+Fixpoint first_redirect (l : list term) : option bytes :=
+  match l with
+  | [] => None
+  | TRedirect d :: _ => Some d
+  | _ :: r => first_redirect r
   end.
 
 (* ------------------------------------------------------------------ evaluation *)
@@ -197,17 +234,33 @@ Definition qual_code (q : qual) : Z :=
 (** outcome of one mechanism: match / no match / abort *)
 Inductive mout := Match | NoMatch | Abort (r : rres).
 
+Definition ci_eq (a b : bytes) : bool := bytes_eqb (lower a) (lower b).
+(** <target-name> is the validated name or an ancestor of it; [eq]: how names are compared *)
+Definition name_under_gen (eq : bytes -> bytes -> bool) (target v : bytes) : bool :=
+  eq v target
+  || (Nat.ltb (length target) (length v)
+      && eq (skipn (length v - length target) v) target
+      && (nth (length v - length target - 1) v 0 =? 46)).
+Definition name_under : bytes -> bytes -> bool := name_under_gen ci_eq.
+
+(** the selected record of a TXT answer: exactly one record starting "v=spf1" followed by SP or nothing;
+    RSkip when a record starts with something that differs from the version only by case or by what follows *)
+Definition version_ok (r : bytes) : bool :=
+  is_prefix SPF_VERSION r && (match skipn 6 r with [] => true | c :: _ => c =? 32 end).
+Definition select_record (recs : list bytes) : rres + option bytes :=
+  let cand := filter (fun r => case_prefix SPF_VERSION r) recs in
+  if negb (forallb version_ok cand)
+  then inl RSkip
+  else match cand with
+       | [] => inr None
+       | [r] => inr (Some (skipn 6 r))
+       | _ => inl (RCode SPF_PERMERROR)
+       end.
+
 Section Rfc.
 Variable D : dns.
 Variable X : sess.
-
-Definition ci_eq (a b : bytes) : bool := bytes_eqb (lower a) (lower b).
-(** <target-name> is the validated name or an ancestor of it *)
-Definition name_under (target v : bytes) : bool :=
-  ci_eq v target
-  || (Nat.ltb (length target) (length v)
-      && ci_eq (skipn (length v - length target) v) target
-      && (nth (length v - length target - 1) v 0 =? 46)).
+Variable strict : bool.
 
 Definition addr_lookup (name : bytes) : addrans := if client_v4 X then d_a D name else d_aaaa D name.
 Definition addr_match (l : list N) (c4 c6 : N) : bool :=
@@ -223,120 +276,151 @@ Fixpoint ptr_validated (names : list bytes) : list bytes :=
               end
   end.
 
-(** the selected record of a TXT answer: exactly one record starting "v=spf1" followed by SP or nothing;
-    RSkip when a record starts with something that differs from the version only by case or by what follows *)
-Definition select_record (recs : list bytes) : rres + option bytes :=
-  let cand := filter (fun r => case_prefix SPF_VERSION r) recs in
-  if negb (forallb (fun r => is_prefix SPF_VERSION r && (match skipn 6 r with [] => true | c :: _ => c =? 32 end)) cand)
-  then inl RSkip
-  else match cand with
-       | [] => inr None
-       | [r] => inr (Some (skipn 6 r))
-       | _ => inl (RCode SPF_PERMERROR)
-       end.
+Definition target_of (domain : bytes) (d : option bytes) : bytes := match d with Some n => n | None => domain end.
 
-Fixpoint rfc_check (fuel : nat) (domain : bytes) (cnt : nat) : rres * nat :=
-  match fuel with
-  | O => (RSkip, cnt)
-  | S f =>
-    match d_txt D domain with
-    | TxtErr TENoent => (RCode SPF_NONE, cnt)
-    | TxtErr TETemp => (RCode SPF_TEMPERROR, cnt)
-    | TxtErr _ => (RSkip, cnt)
-    | TxtRecs recs =>
+Section Rec.
+(** check_host() for a target name of include / redirect, with the number of DNS terms so far *)
+Variable rec : bytes -> nat -> rres * nat.
+
+(** the mechanisms that cause DNS queries, after the term was counted *)
+Definition eval_dns_mech (domain : bytes) (m : mech) (cnt : nat) : mout * nat :=
+  match m with
+  | MInclude d =>
+      match rec d cnt with
+      | (RCode z, c') =>
+          if (z =? SPF_PASS)%Z then (Match, c')
+          else if (z =? SPF_FAIL)%Z || (z =? SPF_SOFTFAIL)%Z || (z =? SPF_NEUTRAL)%Z then (NoMatch, c')
+          else if (z =? SPF_TEMPERROR)%Z then (Abort (RCode SPF_TEMPERROR), c')
+          else (Abort (RCode SPF_PERMERROR), c')
+      | (r, c') => (Abort r, c')
+      end
+  | MA d c4 c6 =>
+      match addr_lookup (target_of domain d) with
+      | AList l => (if addr_match l c4 c6 then Match else NoMatch, cnt)
+      | AErr ETemp => (Abort (RCode SPF_TEMPERROR), cnt)
+      | AErr _ => (Abort RSkip, cnt)
+      end
+  | MMx d c4 c6 =>
+      match d_mx D (target_of domain d) with
+      | MxNoHost | MxNull => (NoMatch, cnt)
+      | MxErr ETemp => (Abort (RCode SPF_TEMPERROR), cnt)
+      | MxErr _ => (Abort RSkip, cnt)
+      | MxList l =>
+          if 65536 <=? fst (hd (0, []) l) then (NoMatch, cnt)   (* no MX: the implicit one (A record, marked by this priority) is not used *)
+          else if strict && Nat.leb 10 (length l) then (Abort RSkip, cnt)          (* F-C11-10 *)
+          else if Nat.ltb 10 (length l) then (Abort (RCode SPF_PERMERROR), cnt)
+          else (if addr_match (concat (map snd l)) c4 c6 then Match else NoMatch, cnt)
+      end
+  | MPtr d =>
+      (* a client without reverse name at connection time has no PTR record (consistency of the environment) *)
+      match s_remotehost X with
+      | [] => (NoMatch, cnt)
+      | _ =>
+        match d_name D (s_client X) with
+        | NErr e =>
+            if strict then (Abort RSkip, cnt)                                     (* F-C11-12 *)
+            else match e with
+                 | ELocal => (Abort RSkip, cnt)
+                 | _ => (NoMatch, cnt)   (* 5.5: "If a DNS error occurs while doing the PTR RR lookup, then this mechanism fails to match" *)
+                 end
+        | NList names =>
+            (* names are compared case-insensitively *)
+            (if existsb (name_under (target_of domain d)) (ptr_validated (firstn 10 names)) then Match else NoMatch, cnt)
+        end
+      end
+  | MExists d =>
+      match d_a D d with
+      | AList [] => (NoMatch, cnt)
+      | AList _ => (Match, cnt)
+      | AErr ETemp => (Abort (RCode SPF_TEMPERROR), cnt)
+      | AErr _ => (Abort RSkip, cnt)
+      end
+  | _ => (NoMatch, cnt)
+  end.
+
+Definition eval_mech (domain : bytes) (m : mech) (cnt : nat) : mout * nat :=
+  match m with
+  | MAll => (Match, cnt)
+  | MIp4 net len =>
+      if strict && (len <? 8) then (Abort RSkip, cnt)                               (* F-C11-2 *)
+      else (if client_v4 X && ip4_matchnet (s_client X) net len then Match else NoMatch, cnt)
+  | MIp6 net len short =>
+      if strict && ((len <? 8) || short) then (Abort RSkip, cnt)                    (* F-C11-2, F-C11-13 *)
+      else (if negb (client_v4 X) && ip6_matchnet (s_client X) net len then Match else NoMatch, cnt)
+  | _ =>
+      (* 4.6.4: at most 10 terms that cause DNS queries *)
+      if Nat.leb 10 cnt then (Abort RLimit, S cnt) else eval_dns_mech domain m (S cnt)
+  end.
+
+(** the terms from the left: the result of the first match or abort, None when no mechanism matched *)
+Fixpoint eval_terms (domain : bytes) (ts : list term) (cnt : nat) : option rres * nat :=
+  match ts with
+  | [] => (None, cnt)
+  | TDir q m :: r =>
+      match eval_mech domain m cnt with
+      | (Match, c') => (Some (RCode (qual_code q)), c')
+      | (NoMatch, c') => eval_terms domain r c'
+      | (Abort x, c') => (Some x, c')
+      end
+  | _ :: r => eval_terms domain r cnt
+  end.
+
+(** 6.1: no mechanism matched *)
+Definition eval_redirect (ts : list term) (cnt : nat) : rres * nat :=
+  match first_redirect ts with
+  | Some d =>
+      if Nat.leb 10 cnt then (RLimit, S cnt)
+      else match rec d (S cnt) with
+           | (RCode z, c') =>
+               if (z =? SPF_NONE)%Z then ((if strict then RSkip else RCode SPF_PERMERROR), c')    (* F-C11-11 *)
+               else (RCode z, c')
+           | r => r
+           end
+  | None => (RCode SPF_NEUTRAL, cnt)
+  end.
+
+Definition eval_record (domain body : bytes) (cnt : nat) : rres * nat :=
+  match parse_record body with
+  | None => (RSkip, cnt)
+  | Some terms =>
+      if Nat.ltb 1 (count_redirect terms) || Nat.ltb 1 (count_exp terms) then (RCode SPF_PERMERROR, cnt)
+      else match eval_terms domain terms cnt with
+           | (Some r, c') => (r, c')
+           | (None, c') => eval_redirect terms c'
+           end
+  end.
+
+Definition rfc_body (domain : bytes) (cnt : nat) : rres * nat :=
+  match d_txt D domain with
+  | TxtErr TENoent => (RCode SPF_NONE, cnt)
+  | TxtErr TETemp => (RCode SPF_TEMPERROR, cnt)
+  | TxtErr _ => (RSkip, cnt)
+  | TxtRecs recs =>
       match select_record recs with
       | inl r => (r, cnt)
       | inr None => (RCode SPF_NONE, cnt)
-      | inr (Some body) =>
-        match parse_record body with
-        | None => (RSkip, cnt)
-        | Some terms =>
-          if Nat.ltb 1 (count_redirect terms) || Nat.ltb 1 (count_exp terms) then (RCode SPF_PERMERROR, cnt) else
-          let target (d : option bytes) := match d with Some n => n | None => domain end in
-          let eval_mech (m : mech) (cnt : nat) : mout * nat :=
-            match m with
-            | MAll => (Match, cnt)
-            | MIp4 net len => (if client_v4 X && ip4_matchnet (s_client X) net len then Match else NoMatch, cnt)
-            | MIp6 net len => (if negb (client_v4 X) && ip6_matchnet (s_client X) net len then Match else NoMatch, cnt)
-            | _ =>
-              if Nat.leb 10 cnt then (Abort RLimit, S cnt) else
-              let cnt := S cnt in
-              match m with
-              | MInclude d =>
-                  match rfc_check f d cnt with
-                  | (RCode z, c') =>
-                      if (z =? SPF_PASS)%Z then (Match, c')
-                      else if (z =? SPF_FAIL)%Z || (z =? SPF_SOFTFAIL)%Z || (z =? SPF_NEUTRAL)%Z then (NoMatch, c')
-                      else if (z =? SPF_TEMPERROR)%Z then (Abort (RCode SPF_TEMPERROR), c')
-                      else (Abort (RCode SPF_PERMERROR), c')
-                  | (r, c') => (Abort r, c')
-                  end
-              | MA d c4 c6 =>
-                  match addr_lookup (target d) with
-                  | AList l => (if addr_match l c4 c6 then Match else NoMatch, cnt)
-                  | AErr ETemp => (Abort (RCode SPF_TEMPERROR), cnt)
-                  | AErr _ => (Abort RSkip, cnt)
-                  end
-              | MMx d c4 c6 =>
-                  match d_mx D (target d) with
-                  | MxNoHost | MxNull => (NoMatch, cnt)
-                  | MxErr ETemp => (Abort (RCode SPF_TEMPERROR), cnt)
-                  | MxErr _ => (Abort RSkip, cnt)
-                  | MxList l =>
-                      if 65536 <=? fst (hd (0, []) l) then (NoMatch, cnt)                 (* no MX: the implicit one (A record, marked by this priority) is not used *)
-                      else if Nat.ltb 10 (length l) then (Abort (RCode SPF_PERMERROR), cnt)
-                      else (if addr_match (concat (map snd l)) c4 c6 then Match else NoMatch, cnt)
-                  end
-              | MPtr d =>
-                  (* a client without reverse name at connection time has no PTR record (consistency of the environment) *)
-                  match s_remotehost X with [] => (NoMatch, cnt) | _ =>
-                  match d_name D (s_client X) with
-                  | NErr ELocal => (Abort RSkip, cnt)
-                  | NErr _ => (NoMatch, cnt)      (* 5.5: "If a DNS error occurs while doing the PTR RR lookup, then this mechanism fails to match" *)
-                  | NList names =>
-                      (if existsb (name_under (target d)) (ptr_validated (firstn 10 names)) then Match else NoMatch, cnt)
-                  end end
-              | MExists d =>
-                  match d_a D d with
-                  | AList [] => (NoMatch, cnt)
-                  | AList _ => (Match, cnt)
-                  | AErr ETemp => (Abort (RCode SPF_TEMPERROR), cnt)
-                  | AErr _ => (Abort RSkip, cnt)
-                  end
-              | _ => (NoMatch, cnt)
-              end
-            end in
-          let fix eval_terms (ts : list term) (cnt : nat) : rres * nat :=
-            match ts with
-            | [] =>
-                match filter (fun t => match t with TRedirect _ => true | _ => false end) terms with
-                | TRedirect d :: _ =>
-                    if Nat.leb 10 cnt then (RLimit, S cnt)
-                    else match rfc_check f d (S cnt) with
-                         | (RCode z, c') => (RCode (if (z =? SPF_NONE)%Z then SPF_PERMERROR else z), c')
-                         | r => r
-                         end
-                | _ => (RCode SPF_NEUTRAL, cnt)
-                end
-            | TDir q m :: r =>
-                match eval_mech m cnt with
-                | (Match, c') => (RCode (qual_code q), c')
-                | (NoMatch, c') => eval_terms r c'
-                | (Abort x, c') => (x, c')
-                end
-            | _ :: r => eval_terms r cnt
-            end in
-          eval_terms terms cnt
-        end
+      | inr (Some body) => eval_record domain body cnt
       end
-    end
   end.
 
-(** check_host() of RFC 7208, 4: the result, or why the comparison is left out *)
-Definition rfc_check_host (domain : bytes) : rres :=
-  if domain_invalid domain then RSkip else fst (rfc_check 13 domain 0).
+End Rec.
+
+Fixpoint rfc_check_gen (fuel : nat) (domain : bytes) (cnt : nat) : rres * nat :=
+  match fuel with
+  | O => (RSkip, cnt)
+  | S f => rfc_body (rfc_check_gen f) domain cnt
+  end.
+
+Definition rfc_check_host_gen (domain : bytes) : rres :=
+  if domain_invalid domain then RSkip else fst (rfc_check_gen 13 domain 0).
 
 End Rfc.
+
+(** check_host() of RFC 7208, 4: the result, or why the comparison is left out *)
+Definition rfc_check (D : dns) (X : sess) := rfc_check_gen D X false.
+Definition rfc_check_host (D : dns) (X : sess) (domain : bytes) : rres := rfc_check_host_gen D X false domain.
+(** the same, but RSkip also where a known deviation of the implementation is met: the proved class *)
+Definition rfc_check_host_strict (D : dns) (X : sess) (domain : bytes) : rres := rfc_check_host_gen D X true domain.
 
 (** does the result of the implementation agree? *)
 Definition rfc_agrees (r : rres) (rc : Z) : bool :=
